@@ -53,6 +53,9 @@ def make(name, clients, client_of, lookups, h, prefix, size_a, size_b, served, m
            'ForkRace == (\\E i \\in 1..Len(hist) : hist[i].op = "Hook" /\\ hist[i].point = "install" /\\ ~hist[i].ok) /\\',
            '    \\E i, j \\in 1..Len(hist) : hist[i].op = "ReadRemote" /\\ hist[j].op = "ReadRemote" /\\ hist[i].data.kind = "resp" /\\ hist[j].data.kind = "resp" /\\',
            '        hist[i].data.head.tl # hist[j].data.head.tl',
+           # a compare-and-swap of the configuration that lost, after which the file holds a larger head than the loser wanted to write
+           'CasLost == \\E i \\in 1..Len(hist) : hist[i].op = "WriteConfig" /\\ hist[i].conflict /\\',
+           '    \\E j \\in (i + 1)..Len(hist) : hist[j].op = "ReadConfig" /\\ hist[j].t = hist[i].t /\\ hist[j].file = "latest" /\\ hist[j].head.n > hist[i].new.n',
            'ScenView == <<View, %s>>' % (scenario or "TRUE"),
            'Emit == (AllDone /\\ %s) => PrintT(ToJson([w |-> "client", k |-> "%s",' % (emit_cond, kind),
            '    in |-> [h |-> H, prefix |-> Prefix, sizeA |-> SizeA, sizeB |-> SizeB, served |-> InitServed, cfg0 |-> hist[1].head,',
@@ -266,6 +269,9 @@ def c14_scenario_configs(tier):
     return [
         # t1 is overtaken between installing its head and flushing it: t2 completes a lookup with a larger head and starts another
         c14_config({"t1": "c1", "t2": "c1"}, {"t1": [0], "t2": [1, 2]}, 4, 2, max_grow=2, scenario="OvertakenFlush", emit_cond="OvertakenFlush"),
+        # two clients sharing the configuration file: a compare-and-swap that loses against a larger head, a smaller one, an equal one
+        c14_config({"t1": "c1", "t2": "c2"}, {"t1": [0], "t2": [1]}, 3, 2, max_grow=1, scenario="CasLost", emit_cond="CasLost"),
+        c14_config({"t1": "c1", "t2": "c2"}, {"t1": [0], "t2": [1, 2]}, 4, 2, max_grow=2, scenario="CasLost", emit_cond="CasLost"),
     ]
 
 
